@@ -480,6 +480,11 @@ func (db *DB) getActiveFileWriteOff() (off int64, err error) {
 				break
 			}
 
+			// an entry that was being written when the process died: the log ends before it
+			if err == ErrCrc {
+				break
+			}
+
 			return -1, fmt.Errorf("when build activeDataIndex readAt err: %s", err)
 		}
 	}
@@ -550,6 +555,12 @@ func (db *DB) parseDataFiles(dataFileIds []int) (unconfirmedRecords []*Record, c
 				}
 
 				if off >= db.opt.SegmentSize {
+					break
+				}
+
+				// an entry that was being written to the newest file when the process died:
+				// the log ends before it
+				if err == ErrCrc && dataID == dataFileIds[len(dataFileIds)-1] {
 					break
 				}
 				f.rwManager.Close()
